@@ -27,15 +27,18 @@ def deriv_check(tier="quick", seed=0, only=None):
         n, m = base.num_vars, base.num_cons
         pa = mk_params(deriv_check=DerivCheck.CheckAll, iteration_limit=15)
         # (a) correct derivatives pass and do not alter the solve
-        ref = run(mk(), mk_params(iteration_limit=15), x0, y0)
-        chk = run(mk(), pa, x0, y0)
-        cases += 1
-        if chk.exc is not None:
-            failures.append(dict(label="C19:correct_derivatives_rejected", input=dict(scenario=name), observed=repr(chk.exc)[:200]))
-        else:
-            d = _same_trajectory(ref, chk)
-            if d:
-                failures.append(dict(label="C19:check_alters_the_subsequent_solve", input=dict(scenario=name), observed=d))
+        for yv in ([y0] if m == 0 else [y0, np.linspace(0.75, -1.25, m)]):
+            # (the second start has non-zero multipliers: the Hessian check then involves the constraint curvature)
+            ref = run(mk(), mk_params(iteration_limit=15), x0, yv)
+            chk = run(mk(), pa, x0, yv)
+            cases += 1
+            inp_a = dict(scenario=name, y0=None if yv is None else np.asarray(yv).tolist())
+            if chk.exc is not None:
+                failures.append(dict(label="C19:correct_derivatives_rejected", input=inp_a, observed=repr(chk.exc)[:200]))
+            else:
+                d = _same_trajectory(ref, chk)
+                if d:
+                    failures.append(dict(label="C19:check_alters_the_subsequent_solve", input=inp_a, observed=d))
         # (b) a single wrong entry is pinpointed (Jacobian: every (r, c); gradient: every c)
         mags = [0.5] if tier == "quick" else [0.5, 1e-2, 30.0]
         for mag in mags:
